@@ -577,6 +577,7 @@ func (g *Gen) FrontEndSpec(k int) *ExecSpec {
 			}
 		}
 		kind := i % 3
+		nullBody := kind == 2 && g.R.P(35) // a body that is not an object: one front-end issue per call, its own
 		e := &execSpec{node: n, schema: s.schemaP, t: TypeOf(n), dest0: reflect.Zero(TypeOf(n))}
 		e.factory = func() any {
 			q := url.Values{}
@@ -596,6 +597,9 @@ func (g *Gen) FrontEndSpec(k int) *ExecSpec {
 					m["j_"+key] = v
 				}
 				b, _ := json.Marshal(m)
+				if nullBody {
+					b = []byte("null")
+				}
 				r, _ = http.NewRequest("POST", "http://example.com/p", bytes.NewReader(b))
 				r.Header.Set("Content-Type", "application/json")
 			}
